@@ -163,3 +163,119 @@ Theorem C05_source_adjust_box_sizing_bad_keyword (kw : string) srest pl pr pt pb
   run real_ops GenBoxSizing.adjust_box_sizing_height_body [("box", box)] (fun _ _ => False) (fun m => m = "AssertionError").
 Proof. exact (C05_gen_box_sizing.gen_adjust_bad_keyword real_ops kw srest pl pr pt pb bl br bt bb w mnw mxw h mnh mxh rest). Qed.
 Print Assumptions C05_source_adjust_box_sizing_bad_keyword.
+
+(* resolve_one_percentage(box, name, refer_to) and resolve_percentages(box, containing_block) (gen/GenResolve.v).
+   The calls that mutate the box are printed as `%call, box = f(box, 'name', ...)`; [rlinked ha n] interprets a call by
+   running the regenerated body of the callee (the specialisation selected by the constant name); ha: which of the
+   four border_*_width attributes the box has when resolve_percentages is entered.
+   For EVERY box object whose style holds a computed length c under one of the fourteen names, the call stores
+   percentage(c, refer_to) - 0 instead of 'auto' for min_width / min_height - under that name, nothing else *)
+Require WV.gen.GenResolve WV.model.C05Resolve WV.model.C05ResolveLink WV.proofs.C05_gen_resolve_one WV.proofs.C05_gen_resolve.
+Theorem C05_source_resolve_one_percentage ha n b name c r :
+  C05Resolve.rp_name name = true -> C05Resolve.sty b name = C05Resolve.cv c ->
+  ocall (C05ResolveLink.rlinked ha (S (S n))) "resolve_one_percentage" [b; VStr name; VNum r]
+  = VList [VNone; C05Resolve.setf name (C05Resolve.rop_val name c (VNum r)) b].
+Proof. exact (C05_gen_resolve.resolve_one_spec ha n b name c r). Qed.
+Print Assumptions C05_source_resolve_one_percentage.
+
+(* 'percentages resolve against the containing block': what is stored (percentage() itself is
+   C05_percentage_resolution above; here as a function) *)
+Theorem C05_percentages_resolve_against_reference (v r : Q) (refer : val) :
+  C05Resolve.pct (C05Resolve.CPct v) (VNum r) = VNum (r * v / 100) /\
+  C05Resolve.pct (C05Resolve.CPx v) refer = VNum v /\
+  C05Resolve.pct C05Resolve.CAuto refer = VStr "auto" /\
+  C05Resolve.min0c C05Resolve.CAuto refer = VNum 0.
+Proof. repeat split. Qed.
+Print Assumptions C05_percentages_resolve_against_reference.
+
+(* ... and which reference each property gets: the model [resolve], field by field.  cbw, cbh: width and height of
+   the containing block (None: 'auto'); mh: the reference of the vertical margins and paddings ([vertical_ref]: the
+   page height for a page box, else the WIDTH of the containing block, CSS 2.1 8.3 / 8.4); keep: border-collapse is
+   'collapse' and the attribute is already set *)
+Theorem C05_resolve_reading s sbl sbr sbt sbb keep cbw cbh mh inf u :
+  let pct := C05Resolve.pct in let min0c := C05Resolve.min0c in
+  let U := C05Resolve.resolve s sbl sbr sbt sbb keep cbw cbh mh inf u in
+  let W := VNum cbw in let MH := VNum mh in
+  C05Resolve.u_ml U = pct (C05Resolve.c_ml s) W /\ C05Resolve.u_mr U = pct (C05Resolve.c_mr s) W /\
+  C05Resolve.u_mt U = pct (C05Resolve.c_mt s) MH /\ C05Resolve.u_mb U = pct (C05Resolve.c_mb s) MH /\
+  C05Resolve.u_pl U = pct (C05Resolve.c_pl s) W /\ C05Resolve.u_pr U = pct (C05Resolve.c_pr s) W /\
+  C05Resolve.u_pt U = pct (C05Resolve.c_pt s) MH /\ C05Resolve.u_pb U = pct (C05Resolve.c_pb s) MH /\
+  C05Resolve.u_w U = pct (C05Resolve.c_w s) W /\ C05Resolve.u_minw U = min0c (C05Resolve.c_minw s) W /\
+  C05Resolve.u_maxw U = pct (C05Resolve.c_maxw s) W /\
+  (forall h, cbh = Some h ->
+     C05Resolve.u_h U = pct (C05Resolve.c_h s) (VNum h) /\ C05Resolve.u_minh U = min0c (C05Resolve.c_minh s) (VNum h) /\
+     C05Resolve.u_maxh U = pct (C05Resolve.c_maxh s) (VNum h)) /\
+  (cbh = None ->
+     (* CSS 2.1 10.5 / 10.7: a percentage height is 'auto', a percentage min-height 0, max-height refers to `inf` *)
+     C05Resolve.u_h U = match C05Resolve.c_h s with C05Resolve.CPx v => VNum v | _ => VStr "auto" end /\
+     C05Resolve.u_minh U = min0c (C05Resolve.c_minh s) (VNum 0) /\ C05Resolve.u_maxh U = pct (C05Resolve.c_maxh s) inf) /\
+  C05Resolve.u_bl U = (if keep "border_left_width" then C05Resolve.u_bl u else sbl) /\
+  C05Resolve.u_br U = (if keep "border_right_width" then C05Resolve.u_br u else sbr) /\
+  C05Resolve.u_bt U = (if keep "border_top_width" then C05Resolve.u_bt u else sbt) /\
+  C05Resolve.u_bb U = (if keep "border_bottom_width" then C05Resolve.u_bb u else sbb).
+Proof.
+  cbv zeta. repeat split; try reflexivity.
+  - subst cbh. reflexivity.
+  - subst cbh. reflexivity.
+  - subst cbh. reflexivity.
+  - subst cbh. reflexivity.
+  - subst cbh. reflexivity.
+  - subst cbh. reflexivity.
+Qed.
+Print Assumptions C05_resolve_reading.
+
+(* resolve_percentages, every statement of the regenerated text, every call linked: the box afterwards is the
+   resolved box ([resolve] above) passed through the two linked calls of adjust_box_sizing; the containing block is
+   a box or a pair; for a page box its height is a number *)
+Theorem C05_source_resolve_percentages ha n (as_box is_page : bool) kw collapse sbl sbr sbt sbb s u srest rest cbrest
+        i cbw cbh mh f1 f2 :
+  let O := C05ResolveLink.rlinked ha (S (S (S n))) in
+  C05_gen_resolve.vertical_ref is_page cbw cbh = Some mh ->
+  ocall O "adjust_box_sizing"
+    [VObj (C05_gen_resolve.resolved ha kw collapse sbl sbr sbt sbb s u srest rest cbw cbh mh i); VStr "width"]
+    = VList [VNone; VObj f1] ->
+  ocall O "adjust_box_sizing" [VObj f1; VStr "height"] = VList [VNone; VObj f2] ->
+  run O GenResolve.resolve_percentages_body
+    [("box", C05Resolve.rbox kw (C05Resolve.bcv collapse) sbl sbr sbt sbb s u srest rest);
+     ("containing_block", C05Resolve.cbval as_box cbw cbh cbrest); ("box_is_page", VBool is_page); ("inf", VNum i)]
+    (fun rho res => res = None /\ lookup "box" rho = VObj f2) (fun _ => False).
+Proof.
+  exact (C05_gen_resolve.resolve_percentages_linked ha n as_box is_page kw collapse sbl sbr sbt sbb s u srest rest cbrest
+           i cbw cbh mh f1 f2).
+Qed.
+Print Assumptions C05_source_resolve_percentages.
+
+(* ... composed with the theorems about adjust_box_sizing: when the resolved paddings, borders and maximum sizes are
+   numbers (sizes and minimum sizes numbers or 'auto'), the box afterwards holds the resolved margins, paddings and
+   borders and, on each axis, the three sizes of the model [adjust] (which meets the box-sizing clause above) *)
+Theorem C05_source_resolve_percentages_box_sizing ha n (as_box is_page : bool) sz collapse sbl sbr sbt sbb s u srest rest
+        cbrest i cbw cbh mh pl pr pt pb bl br bt bb w mnw mxw h mnh mxh :
+  C05_gen_resolve.vertical_ref is_page cbw cbh = Some mh ->
+  let vo := C05BoxSizing.vo in
+  let U := C05Resolve.resolve s sbl sbr sbt sbb (fun x => collapse && ha x)%bool cbw cbh mh (VNum i) u in
+  C05Resolve.u_pl U = VNum pl -> C05Resolve.u_pr U = VNum pr -> C05Resolve.u_pt U = VNum pt -> C05Resolve.u_pb U = VNum pb ->
+  C05Resolve.u_bl U = VNum bl -> C05Resolve.u_br U = VNum br -> C05Resolve.u_bt U = VNum bt -> C05Resolve.u_bb U = VNum bb ->
+  C05Resolve.u_w U = vo w -> C05Resolve.u_minw U = vo mnw -> C05Resolve.u_maxw U = VNum mxw ->
+  C05Resolve.u_h U = vo h -> C05Resolve.u_minh U = vo mnh -> C05Resolve.u_maxh U = VNum mxh ->
+  run (C05ResolveLink.rlinked ha (S (S (S n)))) GenResolve.resolve_percentages_body
+    [("box", C05Resolve.rbox (VStr (C05BoxSizing.sizing_kw sz)) (C05Resolve.bcv collapse) sbl sbr sbt sbb s u srest rest);
+     ("containing_block", C05Resolve.cbval as_box cbw cbh cbrest); ("box_is_page", VBool is_page); ("inf", VNum i)]
+    (fun rho res => res = None /\
+       exists w' mnw' mxw' h' mnh' mxh',
+         lookup "box" rho =
+           C05Resolve.rbox (VStr (C05BoxSizing.sizing_kw sz)) (C05Resolve.bcv collapse) sbl sbr sbt sbb s
+             (C05Resolve.mkUsed (C05Resolve.u_ml U) (C05Resolve.u_mr U) (C05Resolve.u_mt U) (C05Resolve.u_mb U)
+                (VNum pl) (VNum pr) (VNum pt) (VNum pb) (VNum bl) (VNum br) (VNum bt) (VNum bb)
+                w' mnw' mxw' h' mnh' mxh') srest rest /\
+         let zw := C05BoxSizing.adjust sz (C05BoxSizing.mkEdges pl pr bl br) (C05BoxSizing.mkSizes w mnw mxw) in
+         let zh := C05BoxSizing.adjust sz (C05BoxSizing.mkEdges pt pb bt bb) (C05BoxSizing.mkSizes h mnh mxh) in
+         C05BoxSizing.rep w' (C05BoxSizing.sz zw) /\ C05BoxSizing.rep mnw' (C05BoxSizing.sz_min zw) /\
+         C05BoxSizing.repq mxw' (C05BoxSizing.sz_max zw) /\
+         C05BoxSizing.rep h' (C05BoxSizing.sz zh) /\ C05BoxSizing.rep mnh' (C05BoxSizing.sz_min zh) /\
+         C05BoxSizing.repq mxh' (C05BoxSizing.sz_max zh))
+    (fun _ => False).
+Proof.
+  exact (C05_gen_resolve.resolve_percentages_typed ha n as_box is_page sz collapse sbl sbr sbt sbb s u srest rest cbrest i
+           cbw cbh mh pl pr pt pb bl br bt bb w mnw mxw h mnh mxh).
+Qed.
+Print Assumptions C05_source_resolve_percentages_box_sizing.
